@@ -212,4 +212,373 @@ theorem verbatim_UNC_name_iff (b rest : Bytes) :
 example : parsePrefix [92, 92, 63, 92, 85, 78, 67] = some (.verbatim [85, 78, 67], []) := by decide
 example : parsePrefix [92, 92, 63, 92, 85, 78, 67, 92, 92, 97] = some (.verbatim [85, 78, 67], [92, 92, 97]) := by decide
 
+/-! ### UNC without a share -/
+
+theorem verbatimHdr_field_none' (s1 s2 : UInt8) (sv tail : Bytes) (hne : sv ≠ [])
+    (hfree : ∀ y ∈ sv, anySep y = false) (hq : sv ≠ [QMARK]) :
+    verbatimHdr (s1 :: s2 :: (sv ++ tail)) = none := by
+  match sv, hne with
+  | [q], _ =>
+    have : q ≠ QMARK := fun h => hq (by rw [h])
+    cases tail with
+    | nil => rfl
+    | cons x t => simp [verbatimHdr_eq, this]
+  | q :: c :: t, _ =>
+    have : anySep c = false := hfree c (by simp)
+    simp [verbatimHdr_eq, this]
+
+theorem prefixDeviceNS_field_none' (s1 s2 : UInt8) (sv tail : Bytes) (hne : sv ≠ [])
+    (hfree : ∀ y ∈ sv, anySep y = false) (hq : sv ≠ [DOT]) :
+    prefixDeviceNS (s1 :: s2 :: (sv ++ tail)) = none := by
+  match sv, hne with
+  | [q], _ =>
+    have : q ≠ DOT := fun h => hq (by rw [h])
+    cases tail with
+    | nil => rfl
+    | cons x t => simp [prefixDeviceNS, this]
+  | q :: c :: t, _ =>
+    have : anySep c = false := hfree c (by simp)
+    simp [prefixDeviceNS, this]
+
+theorem maybeSep_cons_sep {norm : Bool} {x : UInt8} (t : Bytes) (h : wsep norm x = true) :
+    maybeSep norm (x :: t) = t := by simp [maybeSep, takeSep, h]
+
+/-- `UNC(server, "")`: exactly `sep sep server` followed by the end, or by one separator (which is
+consumed) that is itself followed by the end or another separator.  The server may be `?` only
+when at most that one separator follows (otherwise the path is a verbatim one), and `.` under the
+same shape condition as any other name (a device name after `\\.\` makes it a device path). -/
+theorem unc_noshare_iff (b rest sv : Bytes) :
+    parsePrefix b = some (.unc sv [], rest) ↔
+      ∃ s1 s2 tail, b = s1 :: s2 :: (sv ++ tail) ∧ anySep s1 = true ∧ anySep s2 = true ∧
+        sv ≠ [] ∧ (∀ y ∈ sv, anySep y = false) ∧ HeadOK anySep tail ∧
+        rest = maybeSep true tail ∧ HeadOK anySep rest ∧
+        (sv = [QMARK] → tail = [] ∨ ∃ x, tail = [x]) := by
+  constructor
+  · intro h
+    rcases parsePrefix_alts h with ⟨ht, _⟩ | ⟨ht, _⟩ | ⟨ht, _⟩ | ⟨ht, _⟩ | ⟨_, h1, h2, h3, h4, h5⟩ | ⟨ht, _⟩
+    all_goals try (simp [WPrefix.tag] at ht)
+    match b, h5 with
+    | s1 :: s2 :: r0, h5 =>
+      simp only [prefixUNC] at h5
+      split at h5
+      · rename_i hss
+        simp only [Bool.and_eq_true] at hss
+        cases hs : serverShare true r0 with
+        | none => simp [hs] at h5
+        | some t =>
+          obtain ⟨sv', sh', r'⟩ := t
+          simp only [hs, Option.some.injEq, Prod.mk.injEq, WPrefix.unc.injEq] at h5
+          obtain ⟨⟨e1, e2⟩, e3⟩ := h5
+          subst e1; subst e3
+          unfold serverShare at hs
+          cases ht1 : takeNormal true r0 with
+          | none => simp [ht1] at hs
+          | some u =>
+            obtain ⟨svv, r1⟩ := u
+            simp only [ht1] at hs
+            obtain ⟨hr0, hsvne, hsvfree, hr1⟩ := takeNormal_some ht1
+            cases ht2 : takeNormal true (maybeSep true r1) with
+            | some w =>
+              obtain ⟨shh, r2⟩ := w
+              simp only [ht2, Option.some.injEq, Prod.mk.injEq] at hs
+              obtain ⟨_, hne2, _, _⟩ := takeNormal_some ht2
+              exact absurd (hs.2.1.trans e2) hne2
+            | none =>
+              simp only [ht2, Option.some.injEq, Prod.mk.injEq] at hs
+              obtain ⟨e4, _, e5⟩ := hs
+              subst e4; subst e5
+              have hrest : HeadOK anySep (maybeSep true r1) := (takeNormal_none_iff true _).mp ht2
+              refine ⟨s1, s2, r1, by rw [hr0], hss.1, hss.2, hsvne, hsvfree, hr1, rfl, hrest, ?_⟩
+              intro hq
+              subst hq
+              subst hr0
+              -- with server `?` the verbatim alternatives must have failed
+              cases r1 with
+              | nil => exact Or.inl rfl
+              | cons x t =>
+                right
+                have hx : anySep x = true := hr1
+                cases t with
+                | nil => exact ⟨x, rfl⟩
+                | cons y t' =>
+                  exfalso
+                  have hv : verbatimHdr (s1 :: s2 :: ([QMARK] ++ x :: y :: t')) = some (y :: t') := by
+                    simp [verbatimHdr_eq, hss.1, hss.2, hx]
+                  have h3' := C02b.prefixVerbatim_guards_redundant _ h1 h2
+                  rw [h3, hv] at h3'
+                  simp only at h3'
+                  cases htn : takeNormal (!startsWith (s1 :: s2 :: ([QMARK] ++ x :: y :: t')) VERB) (y :: t') with
+                  | some z => rw [htn] at h3'; cases h3'
+                  | none =>
+                    rw [htn] at h3'
+                    have hy := (takeNormal_none_iff _ _).mp htn
+                    have hy' : wsep (!startsWith (s1 :: s2 :: ([QMARK] ++ x :: y :: t')) VERB) y = true := hy
+                    simp only [takeSep, hy', if_true] at h3'
+                    cases h3'
+      · cases h5
+  · intro ⟨s1, s2, tail, hb, h1, h2, hsvne, hsvfree, htail, hrest, hrestok, hq⟩
+    subst hb
+    have tn2 : takeNormal true rest = none := (takeNormal_none_iff true rest).mpr hrestok
+    -- the three verbatim alternatives fail
+    have averb : prefixVerbatimUNC (s1 :: s2 :: (sv ++ tail)) = none ∧
+        prefixVerbatimDisk (s1 :: s2 :: (sv ++ tail)) = none ∧
+        prefixVerbatim (s1 :: s2 :: (sv ++ tail)) = none := by
+      by_cases hsq : sv = [QMARK]
+      · subst hsq
+        rcases hq rfl with h0 | ⟨x, h0⟩
+        · subst h0
+          refine ⟨rfl, rfl, ?_⟩
+          rw [C02b.prefixVerbatim_guards_redundant _ rfl rfl]; rfl
+        · subst h0
+          have hx : anySep x = true := htail
+          have hv : verbatimHdr (s1 :: s2 :: ([QMARK] ++ [x])) = some [] := by
+            simp [verbatimHdr_eq, h1, h2, hx]
+          have a1 : prefixVerbatimUNC (s1 :: s2 :: ([QMARK] ++ [x])) = none := by
+            unfold prefixVerbatimUNC; simp only [hv]; rfl
+          have a2 : prefixVerbatimDisk (s1 :: s2 :: ([QMARK] ++ [x])) = none := by
+            unfold prefixVerbatimDisk; simp only [hv]; rfl
+          refine ⟨a1, a2, ?_⟩
+          rw [C02b.prefixVerbatim_guards_redundant _ a1 a2, hv]
+          simp [takeNormal, takeSep]
+      · have hv := verbatimHdr_field_none' s1 s2 sv tail hsvne hsvfree hsq
+        have a1 : prefixVerbatimUNC (s1 :: s2 :: (sv ++ tail)) = none := by
+          unfold prefixVerbatimUNC; simp only [hv]
+        have a2 : prefixVerbatimDisk (s1 :: s2 :: (sv ++ tail)) = none := by
+          unfold prefixVerbatimDisk; simp only [hv]
+        refine ⟨a1, a2, ?_⟩
+        rw [C02b.prefixVerbatim_guards_redundant _ a1 a2, hv]
+    obtain ⟨a1, a2, a3⟩ := averb
+    have a4 : prefixDeviceNS (s1 :: s2 :: (sv ++ tail)) = none := by
+      by_cases hsd : sv = [DOT]
+      · subst hsd
+        cases tail with
+        | nil => rfl
+        | cons x r' =>
+          have hx : anySep x = true := htail
+          have hx' : wsep true x = true := hx
+          rw [maybeSep_cons_sep r' hx'] at hrest
+          subst hrest
+          simp [prefixDeviceNS, h1, h2, hx, tn2]
+      · exact prefixDeviceNS_field_none' s1 s2 sv tail hsvne hsvfree hsd
+    have t1 : takeNormal true (sv ++ tail) = some (sv, tail) := takeNormal_mk true sv tail hsvne hsvfree htail
+    have a5 : prefixUNC (s1 :: s2 :: (sv ++ tail)) = some (.unc sv [], rest) := by
+      simp only [prefixUNC, h1, h2, Bool.and_self, if_true, serverShare, t1]
+      rw [← hrest, tn2]
+    unfold parsePrefix
+    simp [a1, a2, a3, a4, a5]
+
+example : parsePrefix [92, 92, 115] = some (.unc [115] [], []) := by decide
+example : parsePrefix [92, 92, 115, 92, 92, 97] = some (.unc [115] [], [92, 97]) := by decide
+example : parsePrefix [92, 92, 63, 92] = some (.unc [63] [], []) := by decide
+
+/-! ### verbatim UNC without a share -/
+
+theorem serverShare_noshare_iff (norm : Bool) (b sv rest : Bytes) :
+    serverShare norm b = some (sv, [], rest) ↔
+      ∃ tail, b = sv ++ tail ∧ sv ≠ [] ∧ (∀ y ∈ sv, wsep norm y = false) ∧ HeadOK (wsep norm) tail ∧
+        rest = maybeSep norm tail ∧ HeadOK (wsep norm) rest := by
+  constructor
+  · intro hs
+    unfold serverShare at hs
+    cases ht1 : takeNormal norm b with
+    | none => simp [ht1] at hs
+    | some u =>
+      obtain ⟨svv, r1⟩ := u
+      simp only [ht1] at hs
+      obtain ⟨hr0, hsvne, hsvfree, hr1⟩ := takeNormal_some ht1
+      cases ht2 : takeNormal norm (maybeSep norm r1) with
+      | some w =>
+        obtain ⟨shh, r2⟩ := w
+        simp only [ht2, Option.some.injEq, Prod.mk.injEq] at hs
+        obtain ⟨_, hne2, _, _⟩ := takeNormal_some ht2
+        exact absurd hs.2.1 hne2
+      | none =>
+        simp only [ht2, Option.some.injEq, Prod.mk.injEq] at hs
+        obtain ⟨e4, _, e5⟩ := hs
+        subst e4; subst e5
+        exact ⟨r1, hr0, hsvne, hsvfree, hr1, rfl, (takeNormal_none_iff norm _).mp ht2⟩
+  · intro ⟨tail, hb, hne, hfree, htail, hrest, hrestok⟩
+    subst hb
+    have t1 : takeNormal norm (sv ++ tail) = some (sv, tail) := takeNormal_mk norm sv tail hne hfree htail
+    have t2 : takeNormal norm rest = none := (takeNormal_none_iff norm rest).mpr hrestok
+    simp only [serverShare, t1]
+    rw [← hrest, t2]
+
+/-- `VerbatimUNC(server, "")`: exactly `sep sep ? sep UNC sep server` followed by the end, or by
+one separator (consumed) that is itself followed by the end or another separator — separators
+after `UNC` being those of the path's separator set. -/
+theorem verbatim_unc_noshare_iff (b rest sv : Bytes) :
+    parsePrefix b = some (.verbatimUNC sv [], rest) ↔
+      ∃ s1 s2 s3 x0 tail, b = s1 :: s2 :: QMARK :: s3 :: 85 :: 78 :: 67 :: x0 :: (sv ++ tail) ∧
+        anySep s1 = true ∧ anySep s2 = true ∧ anySep s3 = true ∧
+        wsep (!startsWith [s1, s2, QMARK, s3] VERB) x0 = true ∧
+        sv ≠ [] ∧ (∀ y ∈ sv, wsep (!startsWith [s1, s2, QMARK, s3] VERB) y = false) ∧
+        HeadOK (wsep (!startsWith [s1, s2, QMARK, s3] VERB)) tail ∧
+        rest = maybeSep (!startsWith [s1, s2, QMARK, s3] VERB) tail ∧
+        HeadOK (wsep (!startsWith [s1, s2, QMARK, s3] VERB)) rest := by
+  constructor
+  · intro h
+    rcases parsePrefix_alts h with ⟨_, h1⟩ | ⟨ht, _⟩ | ⟨ht, _⟩ | ⟨ht, _⟩ | ⟨ht, _⟩ | ⟨ht, _⟩
+    all_goals try (simp [WPrefix.tag] at ht)
+    unfold prefixVerbatimUNC at h1
+    simp only at h1
+    cases hv : verbatimHdr b with
+    | none => simp [hv] at h1
+    | some r =>
+      obtain ⟨s1, s2, s3, hb, hs1, hs2, hs3⟩ := verbatimHdr_some hv
+      have hnorm : startsWith b VERB = startsWith [s1, s2, QMARK, s3] VERB := by
+        rw [hb]; exact startsWith_hdr _ _ _ _ _
+      simp only [hv] at h1
+      cases hu : takeUNC r with
+      | none => simp [hu] at h1
+      | some r2 =>
+        simp only [hu] at h1
+        have hr := takeUNC_some hu
+        cases hts : takeSep (!startsWith b VERB) r2 with
+        | none => simp [hts] at h1
+        | some r3 =>
+          simp only [hts] at h1
+          obtain ⟨x0, hr2, hx0⟩ := takeSep_some hts
+          cases hss : serverShare (!startsWith b VERB) r3 with
+          | none => simp [hss] at h1
+          | some w =>
+            obtain ⟨sv', sh', r'⟩ := w
+            simp only [hss, Option.some.injEq, Prod.mk.injEq, WPrefix.verbatimUNC.injEq] at h1
+            obtain ⟨⟨e1, e2⟩, e3⟩ := h1
+            subst e1; subst e2; subst e3
+            obtain ⟨tail, hr3, hne, hfree, htail, hrest, hrestok⟩ := (serverShare_noshare_iff _ _ _ _).mp hss
+            rw [hnorm] at hx0 hfree htail hrest hrestok
+            exact ⟨s1, s2, s3, x0, tail, by rw [hb, hr, hr2, hr3], hs1, hs2, hs3, hx0, hne, hfree, htail, hrest, hrestok⟩
+  · intro ⟨s1, s2, s3, x0, tail, hb, h1, h2, h3, hx0, hne, hfree, htail, hrest, hrestok⟩
+    have hnorm : startsWith b VERB = startsWith [s1, s2, QMARK, s3] VERB := by
+      rw [hb]; exact startsWith_hdr _ _ _ _ _
+    have hv : verbatimHdr b = some (85 :: 78 :: 67 :: x0 :: (sv ++ tail)) := by
+      rw [hb, verbatimHdr_eq]; simp [h1, h2, h3]
+    have hss := (serverShare_noshare_iff (!startsWith [s1, s2, QMARK, s3] VERB) (sv ++ tail) sv rest).mpr
+      ⟨tail, rfl, hne, hfree, htail, hrest, hrestok⟩
+    have a1 : prefixVerbatimUNC b = some (.verbatimUNC sv [], rest) := by
+      unfold prefixVerbatimUNC
+      simp only [hv, takeUNC_mk, hnorm, takeSep, hx0, if_true, hss]
+    unfold parsePrefix
+    simp [a1]
+
+example : parsePrefix [92, 92, 63, 92, 85, 78, 67, 92, 115] = some (.verbatimUNC [115] [], []) := by decide
+example : parsePrefix [92, 92, 63, 92, 85, 78, 67, 92, 115, 92, 92, 97] = some (.verbatimUNC [115] [], [92, 97]) := by decide
+
+/-! ### together: every result of the prefix parser has one of the characterised shapes -/
+
+/-- every prefix the parser returns is complete (and then characterised by the `*_iff` theorems
+of `Lemmas/WinStable` / `Props/C02b`) or one of the four incomplete forms characterised above -/
+theorem prefix_result_classified (b rest : Bytes) (k : WPrefix) (h : parsePrefix b = some (k, rest)) :
+    Complete k ∨ k = .verbatim [] ∨ k = .verbatim UNCNAME ∨ (∃ sv, k = .unc sv []) ∨ (∃ sv, k = .verbatimUNC sv []) := by
+  cases k with
+  | verbatim n =>
+    by_cases h1 : n = []
+    · exact Or.inr (Or.inl (by rw [h1]))
+    · by_cases h2 : n = UNCNAME
+      · exact Or.inr (Or.inr (Or.inl (by rw [h2])))
+      · exact Or.inl ⟨h1, h2⟩
+  | verbatimUNC sv sh =>
+    by_cases h1 : sh = []
+    · exact Or.inr (Or.inr (Or.inr (Or.inr ⟨sv, by rw [h1]⟩)))
+    · exact Or.inl h1
+  | unc sv sh =>
+    by_cases h1 : sh = []
+    · exact Or.inr (Or.inr (Or.inr (Or.inl ⟨sv, by rw [h1]⟩)))
+    · exact Or.inl h1
+  | verbatimDisk d => exact Or.inl trivial
+  | deviceNS d => exact Or.inl trivial
+  | disk d => exact Or.inl trivial
+
+/-! ### no prefix at all -/
+
+/-- **The parser finds no prefix exactly when the input neither starts with `letter :` nor with
+two separators followed by a non-separator byte.** -/
+theorem prefix_none_iff (b : Bytes) :
+    parsePrefix b = none ↔
+      diskByte b = none ∧ ¬ ∃ s1 s2 c t, b = s1 :: s2 :: c :: t ∧ anySep s1 = true ∧ anySep s2 = true ∧ anySep c = false := by
+  constructor
+  · intro h
+    unfold parsePrefix at h
+    cases h1 : prefixVerbatimUNC b with
+    | some x => simp [h1] at h
+    | none =>
+    cases h2 : prefixVerbatimDisk b with
+    | some x => simp [h1, h2] at h
+    | none =>
+    cases h3 : prefixVerbatim b with
+    | some x => simp [h1, h2, h3] at h
+    | none =>
+    cases h4 : prefixDeviceNS b with
+    | some x => simp [h1, h2, h3, h4] at h
+    | none =>
+    cases h5 : prefixUNC b with
+    | some x => simp [h1, h2, h3, h4, h5] at h
+    | none =>
+    simp only [h1, h2, h3, h4, h5, Option.orElse_none] at h
+    refine ⟨?_, ?_⟩
+    · unfold prefixDisk at h
+      cases hd : diskByte b with
+      | none => rfl
+      | some x => simp [hd] at h
+    · intro ⟨s1, s2, c, t, hb, hs1, hs2, hc⟩
+      subst hb
+      have hc' : wsep true c = false := hc
+      have := takeNormal_isSome_of_head (norm := true) t hc'
+      cases htn : takeNormal true (c :: t) with
+      | none => rw [htn] at this; cases this
+      | some w =>
+        obtain ⟨sv, r1⟩ := w
+        simp only [prefixUNC, hs1, hs2, Bool.and_self, if_true, serverShare, htn] at h5
+        cases htn2 : takeNormal true (maybeSep true r1) <;> simp [htn2] at h5
+  · intro ⟨hd, hno⟩
+    have hv : verbatimHdr b = none := by
+      match b with
+      | s1 :: s2 :: q :: s3 :: r =>
+        rw [verbatimHdr_eq]
+        split
+        · rename_i hc
+          simp only [Bool.and_eq_true, decide_eq_true_eq] at hc
+          exfalso
+          exact hno ⟨s1, s2, q, s3 :: r, rfl, hc.1.1.1, hc.1.1.2, by rw [hc.1.2]; decide⟩
+        · rfl
+      | [] | [_] | [_, _] | [_, _, _] => rfl
+    have a1 : prefixVerbatimUNC b = none := by unfold prefixVerbatimUNC; simp only [hv]
+    have a2 : prefixVerbatimDisk b = none := by unfold prefixVerbatimDisk; simp only [hv]
+    have a3 : prefixVerbatim b = none := by rw [C02b.prefixVerbatim_guards_redundant b a1 a2, hv]
+    have a4 : prefixDeviceNS b = none := by
+      match b with
+      | s1 :: s2 :: d :: s3 :: r =>
+        simp only [prefixDeviceNS]
+        split
+        · rename_i hc
+          simp only [Bool.and_eq_true, decide_eq_true_eq] at hc
+          exfalso
+          exact hno ⟨s1, s2, d, s3 :: r, rfl, hc.1.1.1, hc.1.1.2, by rw [hc.1.2]; decide⟩
+        · rfl
+      | [] | [_] | [_, _] | [_, _, _] => rfl
+    have a5 : prefixUNC b = none := by
+      match b with
+      | s1 :: s2 :: r =>
+        simp only [prefixUNC]
+        split
+        · rename_i hc
+          simp only [Bool.and_eq_true] at hc
+          have : serverShare true r = none := by
+            rw [serverShare_none_iff]
+            cases r with
+            | nil => trivial
+            | cons c t =>
+              cases hcs : anySep c with
+              | true => exact hcs
+              | false => exact absurd ⟨s1, s2, c, t, rfl, hc.1, hc.2, hcs⟩ hno
+          rw [this]
+        · rfl
+      | [] | [_] => rfl
+    have a6 : prefixDisk b = none := by unfold prefixDisk; rw [hd]
+    unfold parsePrefix
+    simp [a1, a2, a3, a4, a5, a6]
+
+example : parsePrefix [92, 92] = none ∧ parsePrefix [92, 92, 92, 97] = none ∧ parsePrefix [49, 58] = none := by decide
+
 end TP.C02c
